@@ -94,6 +94,39 @@ theorem C10_total_interleaved_spec (w h al mstep b2m ch : Int) (hh : 0 ≤ h)
 
 example : total_bytes_interleaved 3 2 4 3 1 3 = 27 ∧ total_bytes_interleaved 9 2 0 1 8 1 = 3 := by decide
 
+/-- total_allocated_size_in_bytes (generated, planar): one padded plane per channel, plus the alignment slack -/
+theorem C10_total_planar_spec (w h al mstep b2m ch : Int) (hh : 0 ≤ h) (hc : 0 ≤ ch)
+    (hr0 : 0 ≤ row_size w al mstep b2m) (hb : 0 < b2m) (hb' : b2m ≤ 8) (ha : 0 ≤ al)
+    (hfit1 : row_size w al mstep b2m * h < 18446744073709551616)
+    (hfit : row_size w al mstep b2m * h * ch + 8 + al < 18446744073709551616) :
+    total_bytes_planar w h al mstep b2m ch =
+      (row_size w al mstep b2m * h * ch + b2m - 1) / b2m + (if al > 0 then al - 1 else 0) := by
+  have hp : 0 ≤ row_size w al mstep b2m * h := Int.mul_nonneg hr0 hh
+  have hpc : 0 ≤ row_size w al mstep b2m * h * ch := Int.mul_nonneg hp hc
+  have e1 : (row_size w al mstep b2m * (h % 18446744073709551616)) % 18446744073709551616 = row_size w al mstep b2m * h := by
+    by_cases hz : row_size w al mstep b2m = 0
+    · simp [hz]
+    · have h1 : 1 ≤ row_size w al mstep b2m := by omega
+      have : h ≤ row_size w al mstep b2m * h := by
+        have := Int.mul_le_mul_of_nonneg_right h1 hh
+        simpa using this
+      have e0 : h % 18446744073709551616 = h := Int.emod_eq_of_lt hh (by omega)
+      rw [e0]; exact Int.emod_eq_of_lt hp (by omega)
+  have e2 : b2m % 18446744073709551616 = b2m := Int.emod_eq_of_lt (by omega) (by omega)
+  have e5 : (row_size w al mstep b2m * h * ch) % 18446744073709551616 = row_size w al mstep b2m * h * ch := Int.emod_eq_of_lt hpc (by omega)
+  unfold total_bytes_planar planar_units
+  simp only [e1, e2, e5]
+  generalize row_size w al mstep b2m * h * ch = p at *
+  have e3 : (p + b2m) % 18446744073709551616 = p + b2m := Int.emod_eq_of_lt (by omega) (by omega)
+  have e4 : (p + b2m - 1) % 18446744073709551616 = p + b2m - 1 := Int.emod_eq_of_lt (by omega) (by omega)
+  have hq0 : 0 ≤ (p + b2m - 1) / b2m := Int.ediv_nonneg (by omega) (by omega)
+  have hq1 : (p + b2m - 1) / b2m ≤ p + b2m - 1 := Int.ediv_le_self _ (by omega)
+  simp only [e3, e4]
+  generalize (p + b2m - 1) / b2m = q at *
+  split <;> simp (disch := omega) only [Int.emod_eq_of_lt] <;> omega
+
+example : total_bytes_planar 3 2 4 1 1 3 = 27 := by decide
+
 /-- the first pixel, aligned with `align`, plus the pixel data still ends inside the allocation: whatever address the allocator
     returns, `align(m, al) - m ≤ al - 1` -/
 theorem C10_first_pixel_offset (m al : Int) (hm : 0 ≤ m) (ha : 0 < al) (hfit : m + al < 18446744073709551616) :
@@ -124,30 +157,53 @@ theorem C10_exception_safe (c : Cfg) (w : World) (op : Op) (h : Inv c w) (htmp :
     (hok : RecreateOK c w op) (_hthrow : (step c w op).2 = .badAlloc ∨ (step c w op).2 = .ctorThrow) : Inv c (step c w op).1 :=
   inv_step h htmp hsafe op hok
 
-/-- side conditions along a run: the recreate exclusion at every step, and the scratch slot of the model is free -/
-def GoodRun (c : Cfg) : World → List Op → Prop
+/-- the recreate exclusion at every step of a run (a run stops at an assertion failure) -/
+def RecreateOKRun (c : Cfg) : World → List Op → Prop
   | _, [] => True
-  | w, op :: rest => w.imgs tmpSlot = none ∧ RecreateOK c w op ∧
-      (match (step c w op).2 with | .assertFail _ => True | _ => GoodRun c (step c w op).1 rest)
+  | w, op :: rest => RecreateOK c w op ∧
+      (match (step c w op).2 with | .assertFail _ => True | _ => RecreateOKRun c (step c w op).1 rest)
 
--- OPEN (not proven): `w.imgs tmpSlot = none` is itself preserved by every step that does not end in an assertion
--- failure (each operation destroys its temporary); with that lemma the first conjunct of `GoodRun` would follow from
--- `(World.init ..).imgs tmpSlot = none`.  The model driver checks it after every operation of every generated history.
--- Full statement:  theorem C10_history (h : Inv c w) (h0 : w.imgs tmpSlot = none) (hsafe : SwapSafe c)
---                    (hok : ∀ prefix op, prefix ++ [op] <+: ops → RecreateOK c (run c w prefix) op) : Inv c (run c w ops)
-/-- induction over histories of any length -/
-theorem C10_history_partial (c : Cfg) (hsafe : SwapSafe c) (ops : List Op) : ∀ (w : World), Inv c w → GoodRun c w ops → Inv c (run c w ops) := by
+/-- the scratch slot the model uses for `image tmp` is free again after every operation that does not stop in an assertion failure
+    (every operation destroys its temporary, also on the exception paths) -/
+theorem C10_scratch_slot_free (c : Cfg) (w : World) (op : Op) (h : w.imgs tmpSlot = none) :
+    (∃ x, (step c w op).2 = .assertFail x) ∨ (step c w op).1.imgs tmpSlot = none :=
+  step_tmpfree c w op h
+
+-- OPEN (false for the current code, see the witnesses at the end): the same statement without `SwapSafe` and without `RecreateOKRun`.
+/-- induction over histories of ANY length, with any armed allocation / construction fault: the invariant holds after the run
+    (and the scratch slot is free unless the run stopped in an assertion) -/
+theorem C10_history (c : Cfg) (hsafe : SwapSafe c) (ops : List Op) :
+    ∀ (w : World), Inv c w → w.imgs tmpSlot = none → RecreateOKRun c w ops → Inv c (run c w ops) := by
   induction ops with
-  | nil => intro w h _; exact h
+  | nil => intro w h _ _; exact h
   | cons op rest ih =>
-    intro w h hg
-    obtain ⟨htmp, hok, hrest⟩ := hg
+    intro w h htmp hg
+    obtain ⟨hok, hrest⟩ := hg
     have h1 := inv_step h htmp hsafe op hok
+    have h2 := step_tmpfree c w op htmp
     unfold run
     cases hs : step c w op with
     | mk w' out =>
-      rw [hs] at h1 hrest
-      cases out <;> first | exact h1 | exact ih w' h1 hrest
+      rw [hs] at h1 hrest h2
+      have htmp' : (∀ x, out ≠ .assertFail x) → w'.imgs tmpSlot = none := by
+        intro hna
+        rcases h2 with ⟨x, hx⟩ | hn
+        · exact absurd hx (hna x)
+        · exact hn
+      cases out with
+      | assertFail x => exact h1
+      | ok => exact ih w' h1 (htmp' (by intro x e; cases e)) hrest
+      | badAlloc => exact ih w' h1 (htmp' (by intro x e; cases e)) hrest
+      | ctorThrow => exact ih w' h1 (htmp' (by intro x e; cases e)) hrest
+      | nocompile => exact ih w' h1 (htmp' (by intro x e; cases e)) hrest
+      | skip => exact ih w' h1 (htmp' (by intro x e; cases e)) hrest
+      | okFilled => exact ih w' h1 (htmp' (by intro x e; cases e)) hrest
+      | okUnfilled => exact ih w' h1 (htmp' (by intro x e; cases e)) hrest
+
+/-- the static side condition for images of trivially constructible elements: sizes do not wrap to 0 -/
+def TrivialOK (c : Cfg) : Op → Prop
+  | .recreate s W H al _ _ _ => ∀ o, c.orgOf s = some o → o.nontrivial = false ∧ (o.needed al W H = 0 → W * H = 0)
+  | _ => True
 
 /-- elements with trivial construction never trigger the recreate exclusion (apart from size overflow) -/
 theorem C10_recreateOK_trivial (c : Cfg) (w : World) (s W H al : Nat) (f a : Option Nat) (v : Nat)
@@ -158,6 +214,46 @@ theorem C10_recreateOK_trivial (c : Cfg) (w : World) (s W H al : Nat) (f a : Opt
   refine ⟨fun hm => hz ?_, Or.inl ht⟩
   have := (h.nomem s i hs hm).1
   omega
+
+/-- for pixel images (trivially constructible elements) NO run-time side condition is left: from the empty world, every history of any
+    length whose recreate sizes do not wrap, under any allocation fault, keeps the invariant -/
+theorem C10_history_trivial_elements (c : Cfg) (hsafe : SwapSafe c) (ops : List Op) (hops : ∀ op ∈ ops, TrivialOK c op) :
+    ∀ (w : World), Inv c w → w.imgs tmpSlot = none → Inv c (run c w ops) := by
+  induction ops with
+  | nil => intro w h _; exact h
+  | cons op rest ih =>
+    intro w h htmp
+    have hok : RecreateOK c w op := by
+      have ht := hops op (List.mem_cons_self)
+      cases op with
+      | recreate s W H al f a v => exact C10_recreateOK_trivial c w s W H al f a v ht h
+      | _ => trivial
+    have h1 := inv_step h htmp hsafe op hok
+    have h2 := step_tmpfree c w op htmp
+    unfold run
+    cases hs : step c w op with
+    | mk w' out =>
+      rw [hs] at h1 h2
+      have hrest : ∀ op ∈ rest, TrivialOK c op := fun o ho => hops o (List.mem_cons_of_mem _ ho)
+      have htmp' : (∀ x, out ≠ .assertFail x) → w'.imgs tmpSlot = none := by
+        intro hna
+        rcases h2 with ⟨x, hx⟩ | hn
+        · exact absurd hx (hna x)
+        · exact hn
+      cases out with
+      | assertFail x => exact h1
+      | ok => exact ih hrest w' h1 (htmp' (by intro x e; cases e))
+      | badAlloc => exact ih hrest w' h1 (htmp' (by intro x e; cases e))
+      | ctorThrow => exact ih hrest w' h1 (htmp' (by intro x e; cases e))
+      | nocompile => exact ih hrest w' h1 (htmp' (by intro x e; cases e))
+      | skip => exact ih hrest w' h1 (htmp' (by intro x e; cases e))
+      | okFilled => exact ih hrest w' h1 (htmp' (by intro x e; cases e))
+      | okUnfilled => exact ih hrest w' h1 (htmp' (by intro x e; cases e))
+
+example : TrivialOK { pocma := false, pocs := false, empty := true, ntags := 0, ndebug := false,
+                      org := { mstep := 3, b2m := 1, chans := 3, planar := false, nontrivial := false, pixel := true }, porg := none }
+            (.recreate 0 5 3 16 none none 1) := by
+  intro o ho; simp [Cfg.orgOf] at ho; subst ho; exact ⟨rfl, by decide⟩
 
 /-- after the end of a history (every slot destroyed) every allocation ever made has been deallocated exactly once, with its size,
     through its allocator, holding no constructed element; no destructor ran on an unconstructed element -/
